@@ -22,6 +22,7 @@ EXPLANATION = (
     "stay aligned with the independently built slot time axis. C17.4: the populations handed to shortest_int are selected by value, not cut from the sorted record at a position that depends on the record length alone (a fixed rank assumes equal numbers of ones and zeros). C17.5: the folded record holds exactly the slots the time axis is built for: resampling keeps the slot rate (num*sps == len*sps_resamp, len being the symbolic sample count of the record) and without resampling the record has sps samples per slot of the axis. C17.6: the remainder cut from the record is taken modulo an even multiple of sps (the eye is folded into two-slot traces). Zero-padding FIR/polyphase routines count as mixing the data with a literal 0. Decided: these clauses; not decided: accuracy of levels, sigmas, crossings, sampling index (data-dependent numerics).")
 EXPLANATION += (' Added after the audit wave: C17.7 t_opt is searched midway between the two crossing times; C17.8 the boundary between the ON and OFF populations is computed from the level estimates and is not an element of the record; C17.9 the populations are drawn from every slot of the folded trace (no single sub-slot window on an axis that folds two slots).')
 EXPLANATION += (' Second audit wave: C17.10 the instants handed to the crossing clustering carry a reduction of the time axis modulo the slot.')
+EXPLANATION += (' Third audit wave: C17.12 mu0 < threshold < mu1 structurally: every alternative of the stored threshold is an element of linspace(mu0, mu1, n) taken under 0 < index < n-1 (grids nested between interior points and grids cut with [1:-1] are followed), or the midpoint of the levels, or None. C17.6 now also accepts a record cut to whole slots and continued by its first slot when the slot count is odd (the test of the parity is read from the recorded branch condition).')
 TRUSTED = ["sklearn KMeans / scipy gaussian_kde / resample are equivariant under a common affine map of homogeneous data", "numpy semantics of mean/std/unique/roll"]
 
 F0, F1 = Fraction(0), Fraction(1)
@@ -432,6 +433,39 @@ def _noise_only(at):
     return bool(names) and all("noise" in n for n in names)
 
 
+def _merge_branches(forms, limit=2):
+    """the given forms once per combination of alternatives of the two-way merges (phi atoms of plain local variables created at
+    the same program point) they contain: [(form, ...)] - a single tuple when there is no such merge"""
+    def tags(v, out, depth=0):
+        if isinstance(v, Form) and depth < 12:
+            for a in v.atoms():
+                if a[0] == "phi" and len(a[2]) == 2 and "@" in a[1] and not any(k in a[1] for k in ("signal", "noise", "[", "ret:")):
+                    out.add(a[1].rsplit("@", 1)[1].rstrip(">"))
+        elif isinstance(v, (TupleV, VecV)):
+            for x in v.items:
+                tags(x, out, depth + 1)
+    lines = set()
+    for f in forms:
+        tags(f, lines)
+    lines = sorted(lines)[:limit]
+    combos = [()]
+    for ln in lines:
+        combos = [c + ((ln, i),) for c in combos for i in (0, 1)]
+    out = []
+    for combo in combos:
+        pick = dict(combo)
+
+        def fn(a):
+            if a[0] == "phi" and len(a[2]) == 2 and "@" in a[1]:
+                ln = a[1].rsplit("@", 1)[1].rstrip(">")
+                if ln in pick and not any(k in a[1] for k in ("signal", "noise", "[", "ret:")):
+                    alt = a[2][pick[ln]]
+                    return alt.subst(fn) if isinstance(alt, Form) else None
+            return None
+        out.append(tuple(f.subst(fn) if isinstance(f, Form) else f for f in forms))
+    return out
+
+
 def _flen(v):
     """symbolic sample count of an array-valued form (None if not determined).  A stop bound of a slice is taken as the length
     (the code under analysis builds it as a min with the available length)."""
@@ -470,6 +504,13 @@ def _flen(v):
             return l1 if l1 is not None and l1 == l2 else None
         if (nm in _SAME_LEN_FNS or a[1] in _SAME_LEN_FNS) and a[2]:
             return _flen(a[2][0])
+        if nm == "concatenate" and len(a[2]) == 1 and isinstance(a[2][0], (TupleV, VecV)) and not a[3]:
+            parts = [_flen(x) for x in a[2][0].items]          # one-dimensional pieces laid end to end
+            if parts and all(p_ is not None for p_ in parts):
+                tot = parts[0]
+                for p_ in parts[1:]:
+                    tot = tot + p_
+                return tot
         return None
     if k == "idx" and isinstance(a[2], SliceV):
         sl = a[2]
@@ -749,6 +790,96 @@ def rule_every_slot(ctx, rule):
             ctx.holds(rule, fi, rets[0].node, label, "windows on the centred slot-periodic distance" if found.get("centred") else ("one slot per trace" if k == 1 else "no time window on a multi-slot trace"))
 
 
+def _threshold_alternatives(v, guards=()):
+    """(value, conditions under which it is taken) for every alternative of a merged / conditional value"""
+    a = v.single_atom() if isinstance(v, Form) else None
+    if a and a[0] == "phi" and isinstance(v, Form) and v == Form.atom(a):
+        for x in a[2]:
+            yield from _threshold_alternatives(x, guards)
+    elif a and a[0] == "fn" and a[1] == "ifexp" and len(a[2]) == 3 and v == Form.atom(a):
+        c = a[2][0]
+        ca = c.single_atom() if isinstance(c, Form) else None
+        conj = list(ca[2]) if (ca and ca[0] == "fn" and ca[1] == "and") else [c]
+        yield from _threshold_alternatives(a[2][1], guards + tuple(conj))
+        yield from _threshold_alternatives(a[2][2], guards)          # the negation is not used: the else value must stand by itself
+    else:
+        yield v, guards
+
+
+def _strictly_between(v, guards, mu0, mu1, depth=0):
+    """("grid", ok, note) when v is an element of a grid between the levels: ok says whether it provably avoids both levels.
+    None when v is not such an element.  A grid between two points that are themselves strictly inside is strictly inside; the
+    grid linspace(mu0, mu1, n) without its first and last element is; the whole grid is only under 0 < index < n - 1"""
+    a = v.single_atom() if isinstance(v, Form) else None
+    if not (a and a[0] == "idx" and isinstance(a[1], Form) and v == Form.atom(a)) or depth > 3:
+        return None
+    G, i = a[1], a[2]
+    g = G.single_atom()
+    if g and g[0] == "idx" and isinstance(g[1], Form) and isinstance(g[2], SliceV):
+        gg = g[1].single_atom()
+        sl = g[2]
+        if gg and gg[0] == "fn" and gg[1] == "linspace" and len(gg[2]) >= 2 and {vkey(gg[2][0]), vkey(gg[2][1])} == {vkey(mu0), vkey(mu1)}:
+            lo_cut = isinstance(sl.lo, Form) and sl.lo.rational() is not None and sl.lo.rational() >= 1
+            hi_cut = isinstance(sl.hi, Form) and sl.hi.rational() is not None and sl.hi.rational() <= -1
+            return ("grid", bool(lo_cut and hi_cut), "" if not (lo_cut or hi_cut) else " on both sides")
+        return None
+    if not (g and g[0] == "fn" and g[1] == "linspace" and len(g[2]) >= 2):
+        return None
+    lo_, hi_ = g[2][0], g[2][1]
+    if isinstance(lo_, Form) and isinstance(hi_, Form) and {vkey(lo_), vkey(hi_)} == {vkey(mu0), vkey(mu1)}:
+        if not isinstance(i, Form):
+            return ("grid", False, "")
+        closed = not [1 for k_, _v in g[3] if k_ == "endpoint"]
+        ns = [mk_fn("len", [G]), Form.atom(("attr", G, "size")), mk_fn("size", [G])] + ([g[2][2]] if len(g[2]) > 2 and isinstance(g[2][2], Form) else [Form.num(50)])
+        zero, one = Form.num(0), Form.num(1)
+        lower = any(c == mk_fn("gt", [i, zero]) or c == mk_fn("ge", [i, one]) or c == mk_fn("ne", [i, zero]) for c in guards)
+        upper = any(c == mk_fn("gt", [n - 1, i]) or c == mk_fn("ge", [n - 2, i]) or c == mk_fn("ne", [i, n - 1]) or c == mk_fn("gt", [n, i + 1]) for n in ns for c in guards)
+        return ("grid", bool(lower and upper and closed), "" if not (lower or upper) else " on both sides")
+    ends = [_strictly_between(e, guards, mu0, mu1, depth + 1) for e in (lo_, hi_)]
+    if all(e is not None for e in ends):
+        return ("grid", all(e[1] for e in ends), "")
+    return None
+
+
+def rule_threshold_interior(ctx, rule):
+    """mu0 < threshold < mu1: the threshold is read off a grid linspace(mu0, mu1, n) at the least of an estimated density.  That
+    least is the valley between the two levels only when it is an interior point; a density estimated from a handful of samples
+    (3 OFF and 1 ON slot of one PPM symbol: kernel width 0.38 of the eye) only falls over [mu0, mu1], its least is the LAST grid
+    point, the threshold equals mu1 and no sample exceeds it.  Every grid-read alternative of the threshold must therefore be
+    taken only under 0 < index < n - 1 (or be read from a grid without its end points)."""
+    pkg = ctx.pkg
+    fi = pkg.func("devices.GET_EYE")
+    label = "GET_EYE: threshold strictly between the two levels"
+    it = Interp(pkg, param_classes={"input": "electrical_signal"}, assumptions={"input.noise": "none", "sps_resamp": ("truth", True)}, no_inline=("shortest_int",))
+    rets = [o for o in it.run(fi) if o.kind == "return" and isinstance(o.value, ObjV)]
+    if len(rets) != 1:
+        ctx.unknown(rule, fi, fi.node, label, f"{len(rets)} return paths")
+        return
+    eye = rets[0].value
+    mu0, mu1, thr = eye.fields.get("mu0"), eye.fields.get("mu1"), eye.fields.get("threshold")
+    if not (isinstance(mu0, Form) and isinstance(mu1, Form) and thr is not None):
+        ctx.unknown(rule, fi, rets[0].node, label, "fields mu0 / mu1 / threshold not identified")
+        return
+    n_alt = 0
+    for v, guards in _threshold_alternatives(thr):
+        if isinstance(v, Const) and v.v is None:
+            continue                                  # "no estimate": the receivers fall back on THRESHOLD_EST
+        n_alt += 1
+        verdict = _strictly_between(v, guards, mu0, mu1)
+        if verdict is not None and verdict[0] == "grid":
+            ok = verdict[1]
+            ctx.check(rule, ok, fi, rets[0].node, label + " [density minimum on the grid]", "taken only when the minimiser is an interior grid point (or read from a grid without the levels)",
+                      "the threshold is linspace(mu0, mu1, n)[argmin(density)] with no test that the minimiser is interior" + verdict[2] +
+                      ": a density estimated from a few samples only falls (or rises) between the levels, its least is an END of the grid and the threshold equals a level - "
+                      "ppm.DSP(hard, estimated threshold) on ONE 4-PPM symbol (bits 01, sps 16, noise free) got threshold = mu1, found no ON slot and returned 00 / 10 / 11 at random")
+        elif isinstance(v, Form) and v == (mu0 + mu1) / 2:
+            ctx.holds(rule, fi, rets[0].node, label + " [fallback]", "the midpoint of the two levels")
+        else:
+            ctx.unknown(rule, fi, rets[0].node, label, f"alternative {short(v, 160)} not recognised")
+    if not n_alt:
+        ctx.unknown(rule, fi, rets[0].node, label, "no estimate is ever stored")
+
+
 def rule_periodic_crossings(ctx, rule):
     """the crossing instants are found by clustering the mid-band samples over the trace into two groups, one per crossing of the
     two-slot trace.  On the raw axis a group exists only if transitions fall on slot boundaries of that parity: data whose
@@ -821,7 +952,42 @@ def rule_sampling_index(ctx, rule):
                   "of the record is undone in the wrong unit, the index lands near the end of the slot (sps = 8, sps_resamp = 128: i = 8, outside [0, sps))")
 
 
-def rule_even_slots(ctx, rule):
+def _odd_count_extended(it, y):
+    """the folded record is `z` or `concatenate((z, z[:sps]))` (z: the record cut to whole slots), the longer one taken under a test
+    of the parity of z's slot count: an odd number of slots becomes even by the periodic continuation of the record (its first
+    slot follows the last one - the devices are FFT based), so every slot enters the statistics"""
+    sps = S("gv.sps")
+    for a in y.atoms():
+        if a[0] != "phi" or len(a[2]) != 2:
+            continue
+        for z, ext in (a[2], a[2][::-1]):
+            e = ext.single_atom() if isinstance(ext, Form) else None
+            if not (isinstance(z, Form) and e and e[0] == "fn" and e[1] == "concatenate" and len(e[2]) == 1 and isinstance(e[2][0], (TupleV, VecV))):
+                continue
+            parts = list(e[2][0].items)
+            if len(parts) != 2 or not (isinstance(parts[0], Form) and parts[0] == z and isinstance(parts[1], Form)):
+                continue
+            h = parts[1].single_atom()
+            none = lambda x: isinstance(x, Const) and x.v is None
+            if not (h and h[0] == "idx" and isinstance(h[1], Form) and h[1] == z and isinstance(h[2], SliceV) and (none(h[2].lo) or (isinstance(h[2].lo, Form) and h[2].lo.is_zero()))
+                    and isinstance(h[2].hi, Form) and h[2].hi == sps and none(h[2].step)):
+                continue
+            counts = [mk_fn("floordiv", [n, sps]) for n in (Form.atom(("attr", z, "size")), mk_fn("len", [z]), mk_fn("siglen", [z]), mk_fn("size", [z]))]
+            counts += [mk_fn("int", [c]) for c in counts]
+            lz = _flen(z)                    # z = w[:sps*K]: K slots (K is built as a min with the slots available)
+            if lz is not None:
+                K = lz / sps
+                if isinstance(K, Form) and not any(e < 0 for m in K.terms for _a, e in m):
+                    counts.append(K)
+            two, one, zero = Form.num(2), Form.num(1), Form.num(0)
+            parity = [mk_fn("mod", [c, two]) for c in counts]
+            tests = [t for p_ in parity for t in (p_, mk_fn("ne", [p_, zero]), mk_fn("eq", [p_, one]))]
+            if any(isinstance(cf, Form) and any(cf == t for t in tests) for cf in it.cond_forms.values()):
+                return True
+    return False
+
+
+def rule_even_slots(ctx, rule, rule_all=None):
     """the eye is folded into traces of TWO slots (the time axis is `nslots // 2` copies of a two-slot ramp), so the record must be
     cut to a whole number of two-slot periods: the remainder dropped at the end is taken modulo an even multiple of sps.  With a
     remainder modulo sps only, a record with an odd number of slots (a full PRBS period) is one slot longer than its time axis."""
@@ -830,6 +996,7 @@ def rule_even_slots(ctx, rule):
     N = mk_fn("siglen", [S("input.signal")])
     for noise in ("notnone", "none"):
         it = Interp(pkg, param_classes={"input": "electrical_signal"}, assumptions={"input.noise": noise, "sps_resamp": ("truth", False)}, no_inline=("shortest_int",))
+        it.keep_cond_forms = True
         rets = [o for o in it.run(fi) if o.kind == "return" and isinstance(o.value, ObjV)]
         y = rets[0].value.fields.get("y") if len(rets) == 1 else None
         if not isinstance(y, Form):
@@ -852,11 +1019,23 @@ def rule_even_slots(ctx, rule):
         if not mods:
             ctx.unknown(rule, fi, rets[0].node, f"GET_EYE [noise {noise}]: truncation of the record", "no end-truncation of the input by a remainder found")
             continue
-        bad = []
+        bad, drops = [], []
         for M_, a in mods:
             q = (M_ / (2 * S("gv.sps"))).rational() if isinstance(M_, Form) else None
             if q is None or q.denominator != 1 or q <= 0:
+                if isinstance(M_, Form) and M_ == S("gv.sps") and _odd_count_extended(it, y):
+                    continue              # cut to whole slots, then one more slot appended exactly when their number is odd
                 bad.append(M_)
+            else:
+                drops.append(M_)
+        if rule_all is not None and not bad:
+            # the receiver decides EVERY slot with a threshold computed from these statistics: a whole slot that is cut off the record
+            # (the last one of an odd count, which sits next to the wrap-around of the FFT based devices and is the most disturbed one)
+            # is decided without ever having been seen
+            ctx.check(rule_all, not drops, fi, rets[0].node, f"GET_EYE [noise {noise}]: every whole slot of the record enters the eye statistics", "the record is cut to whole slots and an odd count continued periodically",
+                      f"the record is cut by its remainder modulo {drops[0]!r}: with an odd number of slots the last one is left out of mu0, mu1, s0, s1 - ook.DSP on 35 slots of PRBS-7 "
+                      "(sps 33, Gaussian m=2, ER 10 dB, DM -99 ps^2, PD BW 14.85R, no noise) estimated s0 = 4e-4 of the eye from the other zeros, put the Gaussian-optimal threshold 2.9 % of "
+                      "the eye above mu0 and decided the unseen last 0 (3.5 % above mu0, eye margin 0.86) as 1" if drops else "")
         ctx.check(rule, not bad, fi, rets[0].node, f"GET_EYE [noise {noise}]: record cut to whole two-slot periods (remainder modulo {mods[0][0]!r})", "an even multiple of sps",
                   f"the record is cut by its remainder modulo {bad[0]!r}, which is not an even multiple of sps: a record with an odd number of slots stays one slot longer than the time axis "
                   "(nslots // 2 two-slot traces), the eye cannot be folded (IndexError) and the OOK receiver that estimates its threshold from the eye returns nothing" if bad else "")
@@ -929,34 +1108,43 @@ def run(ctx):
             # C17.5 the folded record holds exactly the slots the time axis is built for: resampling maps flen(x) samples at sps per
             # slot onto `num` samples at sps_resamp per slot, so num*sps == flen(x)*sps_resamp (otherwise the time axis is
             # compressed: slot boundaries drift through the eye); without resampling the record has sps samples for each slot of t
-            if isinstance(ywave, Form):
+            def _rate_verdict(ywave, taxis):
+                """("unknown", label, why) or ("check", ok, label, holds, violated) for one branch of the preprocessing"""
                 ya = ywave.single_atom()
                 S_ = S("gv.sps")
                 if ya is not None and ya[0] == "fn" and ya[1].split(".")[-1] == "resample_poly" and len(ya[2]) >= 3:
                     up, down = ya[2][1], ya[2][2]
                     ok_rate = isinstance(up, Form) and isinstance(down, Form) and up * S_ == down * S("sps_resamp")
                     lx = _flen(ya[2][0])
-                    NL = _slots_of_axis(eye.fields.get("t"))
+                    NL = _slots_of_axis(taxis)
                     ok_len = lx is not None and NL is not None and lx == NL * S_
-                    ctx.check("C17.5", bool(ok_rate and ok_len), fi, rets[0].node, f"GET_EYE [{case}]: polyphase resampling keeps the slot rate (up/down == sps_resamp/sps) on a record of nslots*sps samples", "the record is cut to the slots the time axis covers",
-                              "the up/down ratio is not sps_resamp/sps, or the record handed to the resampler does not hold exactly the slots the time axis is built for")
-                elif ya is not None and ya[0] == "fn" and ya[1].split(".")[-1] == "resample" and len(ya[2]) >= 2:
+                    return ("check", bool(ok_rate and ok_len), f"GET_EYE [{case}]: polyphase resampling keeps the slot rate (up/down == sps_resamp/sps) on a record of nslots*sps samples", "the record is cut to the slots the time axis covers",
+                            "the up/down ratio is not sps_resamp/sps, or the record handed to the resampler does not hold exactly the slots the time axis is built for")
+                if ya is not None and ya[0] == "fn" and ya[1].split(".")[-1] == "resample" and len(ya[2]) >= 2:
                     lx, num = _flen(ya[2][0]), ya[2][1]
                     spr = S("sps_resamp")
                     if lx is None or not isinstance(num, Form):
-                        ctx.unknown("C17.5", fi, rets[0].node, f"GET_EYE [{case}]: resampled record", "sample count of the record handed to resample not determined")
-                    else:
-                        ctx.check("C17.5", num * S_ == lx * spr, fi, rets[0].node, f"GET_EYE [{case}]: resample keeps the slot rate (num*sps == len*sps_resamp)", "the record is cut to the slots the time axis covers",
-                                  f"resample maps {short(lx, 90)} samples (sps per slot) onto {short(num, 90)} samples (sps_resamp per slot): for a record longer than the slot cap the time axis is compressed, "
-                                  "slot boundaries drift through the eye window and levels, sigmas and crossings are smeared")
+                        return ("unknown", f"GET_EYE [{case}]: resampled record", "sample count of the record handed to resample not determined")
+                    return ("check", num * S_ == lx * spr, f"GET_EYE [{case}]: resample keeps the slot rate (num*sps == len*sps_resamp)", "the record is cut to the slots the time axis covers",
+                            f"resample maps {short(lx, 90)} samples (sps per slot) onto {short(num, 90)} samples (sps_resamp per slot): for a record longer than the slot cap the time axis is compressed, "
+                            "slot boundaries drift through the eye window and levels, sigmas and crossings are smeared")
+                ly = _flen(ywave)
+                NL = _slots_of_axis(taxis)
+                if ly is None or NL is None:
+                    return ("unknown", f"GET_EYE [{case}]: record vs time axis", "sample count of the record or slot count of the axis not determined")
+                return ("check", ly == NL * S_, f"GET_EYE [{case}]: record has sps samples per slot of the time axis", "len(y) == nslots*sps",
+                        f"the record holds {short(ly, 90)} samples but the time axis is built for {short(NL, 90)} slots of sps samples")
+
+            if isinstance(ywave, Form):
+                # a conditional preprocessing step (an odd slot count continued by one slot, the slot count raised with it) merges
+                # several variables at ONE point: the branches are judged one by one, each with all its values together
+                verdicts = [_rate_verdict(y_, t_) for y_, t_ in _merge_branches([ywave, eye.fields.get("t")])]
+                unk = [v_ for v_ in verdicts if v_[0] == "unknown"]
+                if unk:
+                    ctx.unknown("C17.5", fi, rets[0].node, unk[0][1], unk[0][2])
                 else:
-                    ly = _flen(ywave)
-                    NL = _slots_of_axis(eye.fields.get("t"))
-                    if ly is None or NL is None:
-                        ctx.unknown("C17.5", fi, rets[0].node, f"GET_EYE [{case}]: record vs time axis", "sample count of the record or slot count of the axis not determined")
-                    else:
-                        ctx.check("C17.5", ly == NL * S_, fi, rets[0].node, f"GET_EYE [{case}]: record has sps samples per slot of the time axis", "len(y) == nslots*sps",
-                                  f"the record holds {short(ly, 90)} samples but the time axis is built for {short(NL, 90)} slots of sps samples")
+                    worst = next((v_ for v_ in verdicts if not v_[1]), verdicts[0])
+                    ctx.check("C17.5", all(v_[1] for v_ in verdicts), fi, rets[0].node, worst[2], worst[3] + (f" (on each of {len(verdicts)} preprocessing branches)" if len(verdicts) > 1 else ""), worst[4])
             rule_midway(ctx, fi, eye, rets[0].node, case)
             # C17.4 the two level populations are separated by VALUE (a level-typed threshold between the clusters), never by RANK:
             # a cut of the sorted samples at a position computed from the record length alone assumes a fixed proportion of ones
@@ -1015,4 +1203,5 @@ def run(ctx):
     rule_periodic_crossings(ctx, "C17.10")
     ctx.require_min("C17.10", 2)
     rule_sampling_index(ctx, "C17.11")
+    rule_threshold_interior(ctx, "C17.12")
     ctx.require_min("C17.11", 2)
